@@ -578,6 +578,9 @@ func formSchema(t *rapid.T) (M, M) {
 	}
 	if rapid.IntRange(0, 3).Draw(t, "ro") == 0 {
 		props["r"] = M{"type": "string", "readOnly": true}
+		if rapid.Bool().Draw(t, "rodefault") {
+			props["r"].(M)["default"] = "rd"
+		}
 		if rapid.Bool().Draw(t, "roreq") {
 			s["required"] = []any{"r"}
 		}
